@@ -318,6 +318,10 @@ func checkC17(c *vh.Ctx, tag string, s0 *sast.Schema, feat schemaFeatures) {
 			// both features are present: attribute by repair (the variant without entity-reference nodes round-trips)
 			cls = "entity-ref-rendered-as-ambiguous-name"
 		}
+		if kind == "unparseable" && feat.appliesNoPR && strings.Contains(what, "appliesTo must include") {
+			// several features present: the parser's own message names the cause (the open appliesTo finding)
+			cls = "appliesTo-without-principal-or-resource-renders-unparseable"
+		}
 		if cls == "" {
 			cls = "unexplained-" + leg + "-" + kind
 		}
